@@ -19,6 +19,7 @@ from .sphere import Sphere
 from .utils import (
     _generate_ax,
     _hoomd_dict_mapping,
+    _is_minimal_bounding_ball,
     _map_dict_keys,
     _set_3d_axes_equal,
     translate_inertia_tensor,
@@ -640,6 +641,10 @@ class Polyhedron(Shape3D):
             attempt += 1
             try:
                 center, r2 = miniball.get_bounding_ball(vertices)
+                # miniball can silently return a ball that misses vertices or is
+                # not minimal; treat that like a failed solve and retry.
+                if not _is_minimal_bounding_ball(vertices, center, r2):
+                    raise np.linalg.LinAlgError("miniball returned a wrong ball.")
                 break
             except np.linalg.LinAlgError:
                 current_rotation = rowan.random.rand(1)
